@@ -1,4 +1,4 @@
-(* C05 -- proofs about the inline-cache protocol model (Model/CallCache.v). *)
+(* C05 -- proofs about the inline-cache protocol model (Model/CallCache.v), as repaired. *)
 From Aelys Require Import Base.Tactics Extracted.CallCacheConsts Model.CallCache.
 Local Open Scope N_scope.
 
@@ -55,20 +55,6 @@ Proof.
     + rewrite IH. destruct (nth_error t n); cbn; [|reflexivity]. f_equal. f_equal. lia.
 Qed.
 
-Lemma in_enum_from {A} : forall (l : list A) k i x,
-  In (i, x) (enum_from k l) <-> exists n, i = k + N.of_nat n /\ nth_error l n = Some x.
-Proof.
-  induction l as [|h t IH]; intros k i x; cbn [enum_from In].
-  - split; [tauto|]. intros [n [_ H]]. destruct n; discriminate.
-  - split.
-    + intros [E|H].
-      * inversion E; subst. exists 0%nat. split; [lia|reflexivity].
-      * apply IH in H as [n [-> Hn]]. exists (S n). split; [lia|exact Hn].
-    + intros [[|n] [-> Hn]].
-      * left. cbn in Hn. inversion Hn. f_equal. lia.
-      * right. apply IH. exists n. split; [lia|exact Hn].
-Qed.
-
 Lemma forall2_nth {A B} (R : A -> B -> Prop) : forall l l', Forall2 R l l' ->
   forall n, match nth_error l n, nth_error l' n with
             | Some a, Some b => R a b
@@ -106,31 +92,21 @@ Qed.
 (* ------------------------------------------------------------------ invariant and relation *)
 Definition site_at (st : state) (sid : N) : option site := nth_error (sites st) (N.to_nat sid).
 
-Definition mono_ok (st : state) (s : site) (p : N) : Prop :=
-  forall e, cache_entry (cache st) (s_slot s) = Some e ->
-    e_code e = p /\ gget st (s_idx s) = GPtr p /\
-    exists o, hget st p = Some o /\ o_kind o <> KNat /\ e_clo e = is_clo o.
+(* every cache entry was built from an object that is still alive, is a function or closure with
+   the recorded closure flag, and is bound to some global *)
+Definition entries_ok (st : state) : Prop :=
+  forall slot e, cache_entry (cache st) slot = Some e ->
+    (exists o, hget st (e_code e) = Some o /\ o_kind o <> KNat /\ e_clo e = is_clo o) /\
+    bound_somewhere st (e_code e) = true.
 
-Definition native_ok (st : state) (s : site) (p : N) : Prop :=
-  (s_slotted s = true \/ p <> 0) ->
-  gget st (s_idx s) = GPtr p /\ exists o, hget st p = Some o /\ o_kind o = KNat.
+Definition slots_ok (st : state) : Prop :=
+  forall sid s, site_at st sid = Some s -> s_slot s < MAX_CALL_SITE_SLOTS.
 
-(* what the model's cache and patched sites are allowed to contain *)
-Definition uses_cache (s : site) : Prop := forall p, s_form s <> Native p.
+Record cache_inv (st : state) : Prop := { inv_entries : entries_ok st; inv_slots : slots_ok st }.
 
-Record cache_inv (st : state) : Prop := {
-  inv_mono : forall sid s p, site_at st sid = Some s -> s_live s = true -> s_form s = Mono p -> mono_ok st s p;
-  inv_native : forall sid s p, site_at st sid = Some s -> s_live s = true -> s_form s = Native p ->
-               native_ok st s p;
-  (* only sites emitted with a slot id hold opcode 77 or 78 *)
-  inv_slotted : forall sid s, site_at st sid = Some s -> uses_cache s -> s_slotted s = true }.
+Definition site_rel (a b : site) : Prop := s_live a = s_live b /\ s_idx a = s_idx b.
 
-Definition site_rel (a b : site) : Prop :=
-  s_live a = s_live b /\ s_slotted a = s_slotted b /\ s_idx a = s_idx b /\
-  (uses_cache a -> s_slot a = s_slot b).
-
-(* the implementation state and the specification's state describe the same bindings,
-   the same heap and the same sites *)
+(* two states describe the same bindings, the same heap and the same sites *)
 Definition view_rel (st sp : state) : Prop :=
   (forall i, gget st i = gget sp i) /\ (forall p, hget st p = hget sp p) /\
   Forall2 site_rel (sites st) (sites sp).
@@ -146,30 +122,19 @@ Lemma view_rel_site st sp sid : view_rel st sp ->
   end.
 Proof. intros (_ & _ & Hs). apply (forall2_nth _ _ _ Hs). Qed.
 
-(* ---- facts extracted from the boolean guards ---- *)
-Lemma unique_slots_distinct sp : unique_slots sp = true ->
-  forall i j a b, site_at sp i = Some a -> site_at sp j = Some b -> i <> j ->
-    slot_user a = true -> slot_user b = true -> s_slot a <> s_slot b.
+Lemma view_rel_trans a b c : view_rel a b -> view_rel b c -> view_rel a c.
 Proof.
-  unfold unique_slots. intros H i j a b Ha Hb Hij Ua Ub.
-  apply andb_true_iff in H as [H _].
-  rewrite forallb_forall in H.
-  assert (Ia : In (i, a) (enum_from 0 (sites sp))).
-  { apply in_enum_from. exists (N.to_nat i). split; [lia|exact Ha]. }
-  assert (Ib : In (j, b) (enum_from 0 (sites sp))).
-  { apply in_enum_from. exists (N.to_nat j). split; [lia|exact Hb]. }
-  specialize (H _ Ia). rewrite forallb_forall in H. specialize (H _ Ib). cbn [fst snd] in H.
-  rewrite Ua, Ub in H. cbn in H.
-  destruct (i =? j) eqn:E; [apply N.eqb_eq in E; contradiction|].
-  cbn in H. apply negb_true_iff in H. apply N.eqb_neq in H. exact H.
+  intros (G1 & H1 & S1) (G2 & H2 & S2). repeat split.
+  - intro i. now rewrite G1.
+  - intro p. now rewrite H1.
+  - apply forall2_of_nth. intro n. pose proof (forall2_nth _ _ _ S1 n) as A. pose proof (forall2_nth _ _ _ S2 n) as B.
+    destruct (nth_error (sites a) n), (nth_error (sites b) n), (nth_error (sites c) n); try contradiction; auto.
+    destruct A, B. split; congruence.
 Qed.
 
-Lemma unique_slots_bound sp : unique_slots sp = true ->
-  forall i a, site_at sp i = Some a -> slot_user a = true -> s_slot a < MAX_CALL_SITE_SLOTS.
+Lemma view_rel_refl a : view_rel a a.
 Proof.
-  unfold unique_slots. intros H i a Ha Ua. apply andb_true_iff in H as [_ H].
-  rewrite forallb_forall in H. specialize (H a (nth_error_In _ _ Ha)). rewrite Ua in H. cbn in H.
-  apply N.ltb_lt in H. exact H.
+  repeat split. apply forall2_of_nth. intro n. destruct (nth_error (sites a) n); auto. split; reflexivity.
 Qed.
 
 Lemma not_bound_somewhere sp p : bound_somewhere sp p = false -> forall i, gget sp i <> GPtr p.
@@ -183,72 +148,117 @@ Proof.
   congruence.
 Qed.
 
+Lemma bound_somewhere_intro st i p : gget st i = GPtr p -> bound_somewhere st p = true.
+Proof.
+  intro E. destruct (bound_somewhere st p) eqn:B; [reflexivity|].
+  exfalso. exact (not_bound_somewhere st p B i E).
+Qed.
+
+Lemma bound_somewhere_elim st p : bound_somewhere st p = true -> exists i, gget st i = GPtr p.
+Proof.
+  unfold bound_somewhere. intro H. apply existsb_exists in H as ([i v] & _ & H). cbn in H.
+  exists i. unfold gval_is in H. destruct (gget st i) as [| |q]; try discriminate.
+  apply N.eqb_eq in H. now subst.
+Qed.
+
 (* ------------------------------------------------------------------ one call *)
-Lemma live_slot_user a : s_live a = true -> s_slotted a = true -> slot_user a = true.
-Proof. unfold slot_user. intros -> ->. reflexivity. Qed.
+Lemma validates : MONO_FAST_PATH_VALIDATES = true.
+Proof. reflexivity. Qed.
+Lemma native_follows : NATIVE_SITE_FOLLOWS_REBINDING = true.
+Proof. reflexivity. Qed.
+Lemma zero_slot_ok : 0 < MAX_CALL_SITE_SLOTS.
+Proof. reflexivity. Qed.
+
+(* what the specification says about a call through global idx *)
+Definition spec_res (st : state) (idx : N) : outcome :=
+  match resolve st idx with
+  | ROk q o => match o_kind o with KNat => ONative q | _ => ORan q q end
+  | _ => OErr ENotCallable
+  end.
+
+Definition agree (a b : outcome) : Prop := same_callee a b = true.
+
+Lemma plain_correct st sid s : s_slot s < MAX_CALL_SITE_SLOTS ->
+  agree (snd (op_call_global st sid s)) (spec_res st (s_idx s)).
+Proof.
+  intro Hb. unfold agree, op_call_global, spec_res.
+  destruct (resolve st (s_idx s)) as [q o| | |]; cbn; auto.
+  assert (Hb' : (MAX_CALL_SITE_SLOTS <=? s_slot s) = false) by (apply N.leb_gt; exact Hb).
+  destruct (o_kind o); rewrite ?Hb'; cbn; rewrite ?N.eqb_refl; reflexivity.
+Qed.
+
+Lemma miss_correct st sid s : s_slot s < MAX_CALL_SITE_SLOTS ->
+  agree (snd (mono_miss st sid s)) (spec_res st (s_idx s)).
+Proof.
+  intro Hb. unfold agree, mono_miss, spec_res.
+  destruct (resolve st (s_idx s)) as [q o| | |]; cbn; auto.
+  assert (Hb' : (MAX_CALL_SITE_SLOTS <=? s_slot s) = false) by (apply N.leb_gt; exact Hb).
+  destruct (o_kind o); rewrite ?Hb'; cbn; rewrite ?N.eqb_refl; reflexivity.
+Qed.
+
+Lemma mono_correct st sid s p : entries_ok st -> s_slot s < MAX_CALL_SITE_SLOTS ->
+  agree (snd (op_call_global_mono st sid s p)) (spec_res st (s_idx s)).
+Proof.
+  intros E Hb. pose proof (miss_correct st sid s Hb) as M. unfold op_call_global_mono.
+  destruct (negb (p =? 0)); [|exact M].
+  destruct (cache_entry (cache st) (s_slot s)) as [e|] eqn:Ce; [|exact M].
+  rewrite validates. cbn [negb orb].
+  destruct ((e_code e =? p) && gval_is (gget st (s_idx s)) p) eqn:V; [|exact M].
+  apply andb_true_iff in V as [V1 V2]. apply N.eqb_eq in V1.
+  unfold gval_is in V2. destruct (gget st (s_idx s)) as [| |q] eqn:G; try discriminate.
+  apply N.eqb_eq in V2. subst q.
+  destruct (E _ _ Ce) as [(o & Ho & Hk & Hc) _]. rewrite V1 in *.
+  unfold agree, spec_res, resolve. rewrite G, Ho, Hc. unfold is_clo.
+  destruct (o_kind o) eqn:K; cbn; rewrite ?N.eqb_refl; auto; congruence.
+Qed.
+
+Lemma resolve_with_site st sid f i : resolve (with_site st sid f) i = resolve st i.
+Proof. reflexivity. Qed.
+
+Lemma native_correct st sid s p :
+  agree (snd (op_call_global_native st sid s p)) (spec_res st (s_idx s)).
+Proof.
+  unfold op_call_global_native. rewrite native_follows. cbn [andb].
+  destruct (despecialise st s p) eqn:D.
+  - pose proof (plain_correct (with_site st sid (fun _ => mkSite (s_live s) Plain 0 (s_idx s))) sid
+                  (mkSite (s_live s) Plain 0 (s_idx s)) zero_slot_ok) as P.
+    cbn [s_idx] in P. unfold spec_res in *. rewrite resolve_with_site in P. exact P.
+  - unfold despecialise in D. unfold agree, native_body, spec_res, resolve, is_native_at in *.
+    destruct (gget st (s_idx s)) as [| |q] eqn:G.
+    + apply negb_false_iff in D. rewrite D. reflexivity.
+    + apply negb_false_iff in D. rewrite D. reflexivity.
+    + apply orb_false_iff in D as [D1 D2]. apply negb_false_iff in D2.
+      destruct (hget st q) as [o|] eqn:Hq; [|discriminate].
+      destruct (o_kind o) eqn:K; try discriminate.
+      destruct (p =? 0) eqn:P0.
+      * rewrite ?K. cbn. apply N.eqb_refl.
+      * cbn in D1. apply negb_false_iff in D1. apply N.eqb_eq in D1. subst q.
+        rewrite ?Hq, ?K. cbn. apply N.eqb_refl.
+Qed.
+
+Lemma spec_call_res sp sid :
+  spec_call sp sid = match site_at sp sid with
+                     | None => ONoSite
+                     | Some s => if negb (s_live s) then ODead else spec_res sp (s_idx s)
+                     end.
+Proof. reflexivity. Qed.
 
 (* the model's call agrees with the specification *)
 Lemma call_correct st sp sid :
-  cache_inv st -> view_rel st sp -> unique_slots sp = true -> event_ok sp (Call sid) = true ->
-  same_callee (snd (call st sid)) (spec_call sp sid) = true.
+  cache_inv st -> view_rel st sp -> agree (snd (call st sid)) (spec_call sp sid).
 Proof.
-  intros I R U G.
-  pose proof (view_rel_site st sp sid R) as Hs.
-  unfold call, spec_call. fold (site_at st sid). fold (site_at sp sid).
-  cbn [event_ok] in G. fold (site_at sp sid) in G.
+  intros I R. pose proof (view_rel_site st sp sid R) as Hs.
+  rewrite spec_call_res. unfold call. fold (site_at st sid).
   destruct (site_at st sid) as [a|] eqn:Ea; destruct (site_at sp sid) as [b|] eqn:Eb; try contradiction; [|reflexivity].
-  destruct Hs as (Hl & Hsl & Hi & Hslot).
-  rewrite <- Hl. destruct (s_live a) eqn:La; cbn [negb]; [|reflexivity].
-  rewrite <- Hi. rewrite <- (view_rel_resolve st sp (s_idx a) R).
-  rewrite <- Hl, <- Hsl, <- Hi, <- (view_rel_resolve st sp (s_idx a) R) in G. cbn [negb] in G.
-  destruct (s_form a) as [|p|p] eqn:Fa.
-  - (* 77 *)
-    assert (Sa : s_slotted a = true) by (eapply inv_slotted; eauto; intros q; congruence).
-    assert (Hb : s_slot a < MAX_CALL_SITE_SLOTS).
-    { rewrite Hslot by (intros q; congruence).
-      eapply unique_slots_bound; eauto. apply live_slot_user; congruence. }
-    unfold op_call_global. destruct (resolve st (s_idx a)) as [q o| | |]; cbn; auto.
-    destruct (o_kind o); cbn.
-    + replace (MAX_CALL_SITE_SLOTS <=? s_slot a) with false by (symmetry; apply N.leb_gt; exact Hb).
-      cbn. now rewrite !N.eqb_refl.
-    + replace (MAX_CALL_SITE_SLOTS <=? s_slot a) with false by (symmetry; apply N.leb_gt; exact Hb).
-      cbn. now rewrite !N.eqb_refl.
-    + apply N.eqb_refl.
-  - (* 78 *)
-    assert (Sa : s_slotted a = true) by (eapply inv_slotted; eauto; intros q; congruence).
-    pose proof (inv_mono st I sid a p Ea La Fa) as Hm.
-    assert (Hb : s_slot a < MAX_CALL_SITE_SLOTS).
-    { rewrite Hslot by (intros q; congruence).
-      eapply unique_slots_bound; eauto. apply live_slot_user; congruence. }
-    assert (Miss : same_callee (snd (mono_miss st sid a))
-                     match resolve st (s_idx a) with
-                     | ROk q o => match o_kind o with KNat => ONative q | _ => ORan q q end
-                     | _ => OErr ENotCallable end = true).
-    { unfold mono_miss. destruct (resolve st (s_idx a)) as [q o| | |]; cbn; auto.
-      destruct (o_kind o); cbn;
-        try (replace (MAX_CALL_SITE_SLOTS <=? s_slot a) with false by (symmetry; apply N.leb_gt; exact Hb));
-        cbn; rewrite ?N.eqb_refl; auto. }
-    unfold op_call_global_mono.
-    destruct (negb (p =? 0) && (negb MONO_FAST_PATH_VALIDATES || gval_is (gget st (s_idx a)) p)); [|exact Miss].
-    destruct (cache_entry (cache st) (s_slot a)) as [e|] eqn:Ce; [|exact Miss].
-    destruct (Hm e Ce) as (Hc & Hg & o & Ho & Hk & Hclo).
-    assert (Res : resolve st (s_idx a) = ROk p o) by (unfold resolve; rewrite Hg, Ho; reflexivity).
-    rewrite Res. rewrite Hc, Ho.
-    rewrite Hclo. unfold is_clo. destruct (o_kind o) eqn:K; cbn; rewrite ?N.eqb_refl; auto; congruence.
-  - (* 104 *)
-    pose proof (inv_native st I sid a p Ea La Fa) as Hn. unfold native_ok in Hn.
-    unfold op_call_global_native.
-    destruct (p =? 0) eqn:P0.
-    + apply N.eqb_eq in P0. subst p.
-      destruct (s_slotted a) eqn:Sa.
-      * destruct Hn as (Hg & o & Ho & Hk); [now left|].
-        unfold resolve. rewrite Hg, Ho, Hk. cbn. reflexivity.
-      * cbn [orb] in G.
-        destruct (resolve st (s_idx a)) as [q o| | |]; cbn; auto.
-        destruct (o_kind o); cbn; try discriminate. apply N.eqb_refl.
-    + apply N.eqb_neq in P0.
-      destruct Hn as (Hg & o & Ho & Hk); [now right|].
-      unfold resolve. rewrite Hg, Ho, Hk. cbn. apply N.eqb_refl.
+  destruct Hs as (Hl & Hi). rewrite <- Hl, <- Hi.
+  destruct (s_live a); cbn [negb]; [|reflexivity].
+  assert (SR : spec_res sp (s_idx a) = spec_res st (s_idx a)).
+  { unfold spec_res. now rewrite (view_rel_resolve st sp _ R). }
+  rewrite SR. pose proof (inv_slots st I sid a Ea) as Hb.
+  destruct (s_form a) as [|p|p].
+  - now apply plain_correct.
+  - apply mono_correct; [apply (inv_entries st I)|exact Hb].
+  - apply native_correct.
 Qed.
 
 (* ------------------------------------------------------------------ effect of one call on the state *)
@@ -261,50 +271,59 @@ Proof.
   - apply N.eqb_neq in E. apply nth_error_upd_other. intro H. apply E. symmetry. now apply N2Nat.inj.
 Qed.
 
-Inductive call_effect (st : state) (sid : N) (st' : state) : Prop :=
-| CE_same : st' = st -> call_effect st sid st'
-| CE_native a q o :
-    site_at st sid = Some a -> s_live a = true -> resolve st (s_idx a) = ROk q o -> o_kind o = KNat ->
-    st' = with_site st sid (set_form (Native q)) -> call_effect st sid st'
-| CE_fill a q o :
-    site_at st sid = Some a -> s_live a = true -> uses_cache a ->
-    resolve st (s_idx a) = ROk q o -> o_kind o <> KNat ->
-    st' = fill st sid a q (is_clo o) -> call_effect st sid st'.
-
-Lemma call_effect_of st sid : call_effect st sid (fst (call st sid)).
+Lemma forall2_upd (f : site -> site) n : (forall s, site_rel (f s) s) ->
+  forall l, Forall2 site_rel (upd_nth n f l) l.
 Proof.
-  unfold call. fold (site_at st sid).
-  destruct (site_at st sid) as [a|] eqn:Ea; [|now apply CE_same].
-  destruct (s_live a) eqn:La; cbn [negb]; [|now apply CE_same].
-  destruct (s_form a) as [|p|p] eqn:Fa.
-  - unfold op_call_global.
-    destruct (resolve st (s_idx a)) as [q o| | |] eqn:R; try (now apply CE_same).
-    destruct (o_kind o) eqn:K.
-    + destruct (MAX_CALL_SITE_SLOTS <=? s_slot a); [now apply CE_same|].
-      eapply CE_fill; eauto; [intros x; congruence|congruence].
-    + destruct (MAX_CALL_SITE_SLOTS <=? s_slot a); [now apply CE_same|].
-      eapply CE_fill; eauto; [intros x; congruence|congruence].
-    + eapply CE_native; eauto.
-  - assert (M : call_effect st sid (fst (mono_miss st sid a))).
-    { unfold mono_miss.
-      destruct (resolve st (s_idx a)) as [q o| | |] eqn:R; try (now apply CE_same).
-      destruct (o_kind o) eqn:K.
-      + destruct (MAX_CALL_SITE_SLOTS <=? s_slot a); [now apply CE_same|].
-        eapply CE_fill; eauto; [intros x; congruence|congruence].
-      + destruct (MAX_CALL_SITE_SLOTS <=? s_slot a); [now apply CE_same|].
-        eapply CE_fill; eauto; [intros x; congruence|congruence].
-      + now apply CE_same. }
-    unfold op_call_global_mono.
-    destruct (negb (p =? 0) && (negb MONO_FAST_PATH_VALIDATES || gval_is (gget st (s_idx a)) p)); [|exact M].
-    destruct (cache_entry (cache st) (s_slot a)) as [e|]; [|exact M].
-    destruct (e_clo e).
-    + destruct (hget st p) as [o|]; [|now apply CE_same]. destruct (is_clo o); now apply CE_same.
-    + now apply CE_same.
-  - unfold op_call_global_native.
-    destruct (p =? 0).
-    + destruct (resolve st (s_idx a)) as [q o| | |] eqn:R; try (now apply CE_same).
-      destruct (o_kind o) eqn:K; try (now apply CE_same). eapply CE_native; eauto.
-    + destruct (hget st p) as [o|]; [|now apply CE_same]. destruct (o_kind o); now apply CE_same.
+  intros Hf l. apply forall2_of_nth. intro m.
+  destruct (Nat.eq_dec n m) as [E|E].
+  - subst. rewrite nth_error_upd_same. destruct (nth_error l m); cbn; auto.
+  - rewrite nth_error_upd_other by exact E. destruct (nth_error l m); auto. split; reflexivity.
+Qed.
+
+(* a state that differs from st in its cache and in the form / slot of one site *)
+Definition patched (st st' : state) : Prop :=
+  globals st' = globals st /\ heap st' = heap st /\ Forall2 site_rel (sites st') (sites st).
+
+Lemma patched_refl st : patched st st.
+Proof. repeat split. destruct (view_rel_refl st) as (_ & _ & H). exact H. Qed.
+
+Lemma patched_trans a b c : patched a b -> patched b c -> patched a c.
+Proof.
+  intros (G1 & H1 & S1) (G2 & H2 & S2). repeat split; try congruence.
+  apply forall2_of_nth. intro n. pose proof (forall2_nth _ _ _ S1 n) as A. pose proof (forall2_nth _ _ _ S2 n) as B.
+  destruct (nth_error (sites a) n), (nth_error (sites b) n), (nth_error (sites c) n); try contradiction; auto.
+  destruct A, B. split; congruence.
+Qed.
+
+Lemma patched_view st st' sp : patched st st' -> view_rel st sp -> view_rel st' sp.
+Proof.
+  intros (G & H & S) R. apply (view_rel_trans st' st sp); [|exact R].
+  repeat split.
+  - intro i. unfold gget. now rewrite G.
+  - intro p. unfold hget. now rewrite H.
+  - exact S.
+Qed.
+
+Lemma patched_with_site st sid f : (forall s, site_rel (f s) s) -> patched st (with_site st sid f).
+Proof. intro Hf. repeat split. cbn [sites with_site]. now apply forall2_upd. Qed.
+
+Lemma set_form_rel F s : site_rel (set_form F s) s.
+Proof. split; reflexivity. Qed.
+
+Lemma patched_fill st sid s q c : patched st (fill st sid s q c).
+Proof. repeat split. cbn [sites fill]. apply forall2_upd. apply set_form_rel. Qed.
+
+(* entries / slots under the state changes a call can make *)
+Lemma inv_with_site st sid f :
+  cache_inv st -> (forall s, s_slot (f s) = s_slot s \/ s_slot (f s) = 0) -> cache_inv (with_site st sid f).
+Proof.
+  intros [E S] Hf. constructor.
+  - exact E.
+  - intros j s Hj. unfold site_at, with_site in Hj. cbn [sites] in Hj. rewrite upd_site_at in Hj.
+    destruct (j =? sid).
+    + fold (site_at st sid) in Hj. destruct (site_at st sid) as [a|] eqn:Ea; [|discriminate].
+      cbn in Hj. inversion Hj. destruct (Hf a) as [H|H]; rewrite H; [exact (S sid a Ea)|exact zero_slot_ok].
+    + exact (S j s Hj).
 Qed.
 
 Lemma resolve_ok_inv st i q o : resolve st i = ROk q o -> gget st i = GPtr q /\ hget st q = Some o.
@@ -313,98 +332,81 @@ Proof.
   destruct (hget st p) as [o'|] eqn:H; [|discriminate]. intro E. inversion E; subst. auto.
 Qed.
 
-Lemma site_rel_set_form_native a b q : site_rel a b -> site_rel (set_form (Native q) a) b.
+Lemma inv_fill st sid s q o :
+  cache_inv st -> resolve st (s_idx s) = ROk q o -> o_kind o <> KNat -> cache_inv (fill st sid s q (is_clo o)).
 Proof.
-  intros (H1 & H2 & H3 & _). repeat split; auto. intro U. exfalso. apply (U q). reflexivity.
+  intros [E S] Res K. destruct (resolve_ok_inv _ _ _ _ Res) as [Hg Hh]. constructor.
+  - intros slot e He. unfold fill in He. cbn [cache] in He.
+    change (hget (fill st sid s q (is_clo o))) with (hget st).
+    change (bound_somewhere (fill st sid s q (is_clo o))) with (bound_somewhere st).
+    destruct (N.eq_dec (s_slot s) slot) as [Eq|Ne].
+    + subst slot. rewrite cache_entry_set_same in He. inversion He; subst e. cbn [e_code e_clo].
+      split; [exists o; auto|]. exact (bound_somewhere_intro st _ _ Hg).
+    + rewrite cache_entry_set_other in He by exact Ne. exact (E slot e He).
+  - intros j a Hj. unfold site_at, fill in Hj. cbn [sites] in Hj. rewrite upd_site_at in Hj.
+    destruct (j =? sid).
+    + fold (site_at st sid) in Hj. destruct (site_at st sid) as [b|] eqn:Eb; [|discriminate].
+      cbn in Hj. inversion Hj. cbn. exact (S sid b Eb).
+    + exact (S j a Hj).
 Qed.
 
-Lemma site_rel_set_form_mono a b q : site_rel a b -> uses_cache a -> site_rel (set_form (Mono q) a) b.
-Proof. intros (H1 & H2 & H3 & H4) U. repeat split; auto. Qed.
-
-(* sites of the specification never carry a patched form *)
-Definition spec_sites_ok (sp : state) : Prop :=
-  forall sid b, site_at sp sid = Some b -> s_slotted b = true -> uses_cache b.
-
-Lemma view_rel_upd st sp sid f st' :
-  view_rel st sp -> globals st' = globals st -> heap st' = heap st ->
-  sites st' = upd_nth (N.to_nat sid) f (sites st) ->
-  (forall a b, site_at st sid = Some a -> site_at sp sid = Some b -> site_rel a b -> site_rel (f a) b) ->
-  view_rel st' sp.
+Lemma plain_preserves st sid s :
+  cache_inv st -> cache_inv (fst (op_call_global st sid s)) /\ patched st (fst (op_call_global st sid s)).
 Proof.
-  intros (Hg & Hh & Hs) Eg Eh Es Hf. repeat split.
-  - intro i. unfold gget. rewrite Eg. apply Hg.
-  - intro p. unfold hget. rewrite Eh. apply Hh.
-  - rewrite Es. apply forall2_of_nth. intro n.
-    pose proof (forall2_nth _ _ _ Hs n) as Hn.
-    destruct (Nat.eq_dec (N.to_nat sid) n) as [E|E].
-    + subst n. rewrite nth_error_upd_same.
-      unfold site_at in Hf.
-      destruct (nth_error (sites st) (N.to_nat sid)) as [a|]; destruct (nth_error (sites sp) (N.to_nat sid)) as [b|]; cbn; auto.
-    + rewrite nth_error_upd_other by exact E. exact Hn.
+  intro I. unfold op_call_global.
+  destruct (resolve st (s_idx s)) as [q o| | |] eqn:R; cbn [fst]; try (split; [exact I|apply patched_refl]).
+  destruct (o_kind o) eqn:K.
+  - destruct (MAX_CALL_SITE_SLOTS <=? s_slot s); cbn [fst]; [split; [exact I|apply patched_refl]|].
+    split; [apply inv_fill; auto; congruence|apply patched_fill].
+  - destruct (MAX_CALL_SITE_SLOTS <=? s_slot s); cbn [fst]; [split; [exact I|apply patched_refl]|].
+    split; [apply inv_fill; auto; congruence|apply patched_fill].
+  - cbn [fst]. split; [apply inv_with_site; auto|apply patched_with_site; apply set_form_rel].
 Qed.
 
-Lemma step_call_preserves st sp sid :
-  cache_inv st -> view_rel st sp -> unique_slots sp = true ->
-  cache_inv (fst (call st sid)) /\ view_rel (fst (call st sid)) sp.
+Lemma miss_preserves st sid s :
+  cache_inv st -> cache_inv (fst (mono_miss st sid s)) /\ patched st (fst (mono_miss st sid s)).
 Proof.
-  intros I R U.
-  destruct (call_effect_of st sid) as [E | a q o Ea La Res K E | a q o Ea La Ua Res K E]; rewrite E; clear E.
-  - auto.
-  - (* patched to 104 *)
-    destruct (resolve_ok_inv _ _ _ _ Res) as [Hg Hh].
-    split.
-    + assert (SA : forall j, site_at (with_site st sid (set_form (Native q))) j =
-                    if j =? sid then option_map (set_form (Native q)) (site_at st sid) else site_at st j).
-      { intro j. unfold site_at, with_site. cbn [sites]. apply upd_site_at. }
-      constructor.
-      * intros j s p Hj Lj Fj. rewrite SA in Hj. destruct (j =? sid) eqn:Ej.
-        -- rewrite Ea in Hj. cbn in Hj. inversion Hj; subst s. cbn in Fj. discriminate.
-        -- exact (inv_mono st I j s p Hj Lj Fj).
-      * intros j s p Hj Lj Fj. rewrite SA in Hj. destruct (j =? sid) eqn:Ej.
-        -- rewrite Ea in Hj. cbn in Hj. inversion Hj; subst s. cbn in Fj. inversion Fj; subst p.
-           intros _. cbn [s_idx set_form]. split; [exact Hg|]. exists o. split; [exact Hh|exact K].
-        -- exact (inv_native st I j s p Hj Lj Fj).
-      * intros j s Hj Fj. rewrite SA in Hj. destruct (j =? sid) eqn:Ej.
-        -- rewrite Ea in Hj. cbn in Hj. inversion Hj; subst s. exfalso. apply (Fj q). reflexivity.
-        -- exact (inv_slotted st I j s Hj Fj).
-    + eapply view_rel_upd; eauto; try reflexivity.
-      intros a' b _ _ Hab. now apply site_rel_set_form_native.
-  - (* cache filled, patched to 78 *)
-    destruct (resolve_ok_inv _ _ _ _ Res) as [Hg Hh].
-    assert (Sa : s_slotted a = true) by (eapply inv_slotted; eauto).
-    pose proof (view_rel_site st sp sid R) as Hsid. rewrite Ea in Hsid.
-    destruct (site_at sp sid) as [b|] eqn:Eb; [|contradiction].
-    split.
-    + assert (SA : forall j, site_at (fill st sid a q (is_clo o)) j =
-                    if j =? sid then option_map (set_form (Mono q)) (site_at st sid) else site_at st j).
-      { intro j. unfold site_at, fill. cbn [sites]. apply upd_site_at. }
-      constructor.
-      * intros j s p Hj Lj Fj. rewrite SA in Hj. destruct (j =? sid) eqn:Ej.
-        -- rewrite Ea in Hj. cbn in Hj. inversion Hj; subst s. cbn in Fj. inversion Fj; subst p.
-           intros e He. unfold fill in He. cbn [cache s_slot set_form] in He.
-           rewrite cache_entry_set_same in He. inversion He; subst e. cbn [e_code e_clo].
-           split; [reflexivity|]. split; [exact Hg|]. exists o. auto.
-        -- apply N.eqb_neq in Ej.
-           pose proof (inv_mono st I j s p Hj Lj Fj) as M.
-           assert (S : s_slotted s = true) by (eapply inv_slotted; eauto; intros x; congruence).
-           (* a different live slotted site has a different slot *)
-           pose proof (view_rel_site st sp j R) as Hjr. rewrite Hj in Hjr.
-           destruct (site_at sp j) as [bj|] eqn:Ebj; [|contradiction].
-           destruct Hjr as (L1 & S1 & _ & Sl1). destruct Hsid as (L2 & S2 & _ & Sl2).
-           assert (Ne : s_slot s <> s_slot a).
-           { rewrite Sl1 by (intros x; congruence). rewrite Sl2 by exact Ua.
-             eapply unique_slots_distinct; eauto; apply live_slot_user; congruence. }
-           intros e He. unfold fill in He. cbn [cache] in He.
-           rewrite cache_entry_set_other in He by congruence.
-           exact (M e He).
-      * intros j s p Hj Lj Fj. rewrite SA in Hj. destruct (j =? sid) eqn:Ej.
-        -- rewrite Ea in Hj. cbn in Hj. inversion Hj; subst s. cbn in Fj. discriminate.
-        -- exact (inv_native st I j s p Hj Lj Fj).
-      * intros j s Hj Fj. rewrite SA in Hj. destruct (j =? sid) eqn:Ej.
-        -- rewrite Ea in Hj. cbn in Hj. inversion Hj; subst s. exact Sa.
-        -- exact (inv_slotted st I j s Hj Fj).
-    + eapply view_rel_upd; eauto; try reflexivity.
-      intros a' b' Ha' _ Hab. rewrite Ea in Ha'. inversion Ha'; subst a'. now apply site_rel_set_form_mono.
+  intro I. unfold mono_miss.
+  destruct (resolve st (s_idx s)) as [q o| | |] eqn:R; cbn [fst]; try (split; [exact I|apply patched_refl]).
+  destruct (o_kind o) eqn:K.
+  - destruct (MAX_CALL_SITE_SLOTS <=? s_slot s); cbn [fst]; [split; [exact I|apply patched_refl]|].
+    split; [apply inv_fill; auto; congruence|apply patched_fill].
+  - destruct (MAX_CALL_SITE_SLOTS <=? s_slot s); cbn [fst]; [split; [exact I|apply patched_refl]|].
+    split; [apply inv_fill; auto; congruence|apply patched_fill].
+  - cbn [fst]. split; [exact I|apply patched_refl].
+Qed.
+
+Lemma step_call_preserves st sid :
+  cache_inv st -> cache_inv (fst (call st sid)) /\ patched st (fst (call st sid)).
+Proof.
+  intro I. unfold call. fold (site_at st sid).
+  destruct (site_at st sid) as [a|] eqn:Ea; [|split; [exact I|apply patched_refl]].
+  destruct (s_live a); cbn [negb]; [|split; [exact I|apply patched_refl]].
+  destruct (s_form a) as [|p|p].
+  - now apply plain_preserves.
+  - pose proof (miss_preserves st sid a I) as M. unfold op_call_global_mono.
+    destruct (negb (p =? 0)); [|exact M].
+    destruct (cache_entry (cache st) (s_slot a)) as [e|]; [|exact M].
+    destruct (negb MONO_FAST_PATH_VALIDATES || (e_code e =? p) && gval_is (gget st (s_idx a)) p); [|exact M].
+    destruct (e_clo e).
+    + destruct (hget st p) as [o|]; [|split; [exact I|apply patched_refl]].
+      destruct (is_clo o); (split; [exact I|apply patched_refl]).
+    + split; [exact I|apply patched_refl].
+  - unfold op_call_global_native. destruct (NATIVE_SITE_FOLLOWS_REBINDING && despecialise st a p).
+    + set (s' := mkSite (s_live a) Plain 0 (s_idx a)).
+      assert (I1 : cache_inv (with_site st sid (fun _ => s'))) by (apply inv_with_site; auto).
+      assert (P1 : patched st (with_site st sid (fun _ => s'))).
+      { repeat split. cbn [sites with_site]. apply forall2_of_nth. intro m.
+        destruct (Nat.eq_dec (N.to_nat sid) m) as [E|E].
+        - subst m. rewrite nth_error_upd_same. unfold site_at in Ea. rewrite Ea. cbn. split; reflexivity.
+        - rewrite nth_error_upd_other by exact E. destruct (nth_error (sites st) m); auto. split; reflexivity. }
+      destruct (plain_preserves _ sid s' I1) as [I2 P2]. split; [exact I2|]. eapply patched_trans; eauto.
+    + unfold native_body. destruct (p =? 0).
+      * destruct (resolve st (s_idx a)) as [q o| | |]; cbn [fst]; try (split; [exact I|apply patched_refl]).
+        destruct (o_kind o); cbn [fst]; try (split; [exact I|apply patched_refl]).
+        split; [apply inv_with_site; auto|apply patched_with_site; apply set_form_rel].
+      * destruct (hget st p) as [o|]; [|split; [exact I|apply patched_refl]].
+        destruct (o_kind o); (split; [exact I|apply patched_refl]).
 Qed.
 
 (* ------------------------------------------------------------------ the other events *)
@@ -426,213 +428,75 @@ Proof.
 Qed.
 
 Lemma site_rel_refl s : site_rel s s.
-Proof. repeat split; auto. Qed.
-
-Lemma cache_inv_transport st st' :
-  cache_inv st ->
-  (forall j s', site_at st' j = Some s' -> uses_cache s' -> s_slotted s' = true) ->
-  (forall j s' p, site_at st' j = Some s' -> s_live s' = true -> s_form s' = Mono p ->
-     exists s, site_at st j = Some s /\ s_live s = true /\ s_form s = Mono p /\ s_slot s = s_slot s' /\ s_idx s = s_idx s') ->
-  (forall j s' p, site_at st' j = Some s' -> s_live s' = true -> s_form s' = Native p ->
-     (exists s, site_at st j = Some s /\ s_live s = true /\ s_form s = Native p /\ s_slotted s = s_slotted s' /\ s_idx s = s_idx s')
-     \/ (p = 0 /\ s_slotted s' = false)) ->
-  (forall s p, mono_ok st s p -> mono_ok st' s p) ->
-  (forall s p, native_ok st s p -> native_ok st' s p) ->
-  cache_inv st'.
-Proof.
-  intros I H1 H2 H3 HM HN. constructor.
-  - intros j s' p Hj Lj Fj. destruct (H2 j s' p Hj Lj Fj) as (s & Hs & Ls & Fs & Es & Ix).
-    pose proof (HM _ _ (inv_mono st I j s p Hs Ls Fs)) as M.
-    unfold mono_ok in *. rewrite <- Es, <- Ix. exact M.
-  - intros j s' p Hj Lj Fj. destruct (H3 j s' p Hj Lj Fj) as [(s & Hs & Ls & Fs & Sl & Ix)|[-> Sf]].
-    + pose proof (HN _ _ (inv_native st I j s p Hs Ls Fs)) as M.
-      unfold native_ok in *. rewrite <- Sl, <- Ix. exact M.
-    + intros [H|H]; congruence.
-  - exact H1.
-Qed.
-
-Lemma native_bound_rel st sp i : view_rel st sp -> native_bound st i = native_bound sp i.
-Proof. intro R. unfold native_bound. now rewrite (view_rel_resolve st sp i R). Qed.
-
-(* same sites: the three site obligations of the transport lemma *)
-Lemma transport_same_sites st st' :
-  cache_inv st -> sites st' = sites st ->
-  (forall j s', site_at st' j = Some s' -> uses_cache s' -> s_slotted s' = true) /\
-  (forall j s' p, site_at st' j = Some s' -> s_live s' = true -> s_form s' = Mono p ->
-     exists s, site_at st j = Some s /\ s_live s = true /\ s_form s = Mono p /\ s_slot s = s_slot s' /\ s_idx s = s_idx s') /\
-  (forall j s' p, site_at st' j = Some s' -> s_live s' = true -> s_form s' = Native p ->
-     (exists s, site_at st j = Some s /\ s_live s = true /\ s_form s = Native p /\ s_slotted s = s_slotted s' /\ s_idx s = s_idx s')
-     \/ (p = 0 /\ s_slotted s' = false)).
-Proof.
-  intros I E. unfold site_at. rewrite E. repeat split.
-  - intros j s' Hj U. eapply inv_slotted; eauto.
-  - intros j s' p Hj Lj Fj. exists s'. auto.
-  - intros j s' p Hj Lj Fj. left. exists s'. auto.
-Qed.
+Proof. split; reflexivity. Qed.
 
 Lemma step_other_preserves st sp ev :
   (forall sid, ev <> Call sid) ->
-  cache_inv st -> view_rel st sp -> spec_sites_ok sp -> event_ok sp ev = true ->
-  cache_inv (fst (step st ev)) /\ view_rel (fst (step st ev)) (fst (step sp ev)) /\ spec_sites_ok (fst (step sp ev)).
+  cache_inv st -> view_rel st sp -> event_ok sp ev = true ->
+  cache_inv (fst (step st ev)) /\ view_rel (fst (step st ev)) (fst (step sp ev)).
 Proof.
-  intros NC I R SS G. pose proof R as (Rg & Rh & Rs).
+  intros NC [E S] R G. pose proof R as (Rg & Rh & Rs).
   destruct ev as [sid|idx v|p o|ds base|sids|sids|freed]; [exfalso; eapply NC; reflexivity| | | | | |]; cbn [step fst].
   - (* SetGlobal *)
-    rewrite clears_cache. cbn [event_ok] in G. apply negb_true_iff in G.
-    rewrite <- (native_bound_rel st sp idx R) in G.
-    split; [|split].
-    + destruct (transport_same_sites st (mkState ((idx, v) :: globals st) (heap st) [] (sites st)) I eq_refl) as (T1 & T2 & T3).
-      eapply cache_inv_transport; eauto.
-      * intros s p _ e He. cbn [cache] in He. rewrite cache_entry_nil in He. discriminate.
-      * intros s p Hn Hp. destruct (Hn Hp) as (Hg & o & Ho & Hk).
-        assert (Ne : (s_idx s =? idx) = false).
-        { apply N.eqb_neq. intro E. subst idx. unfold native_bound, resolve in G. rewrite Hg, Ho, Hk in G. discriminate. }
-        split.
-        -- unfold gget in *. cbn [globals lookup]. rewrite Ne. exact Hg.
-        -- exists o. split; [exact Ho|exact Hk].
-    + repeat split.
-      * intro i. specialize (Rg i). unfold gget in *. cbn [globals lookup]. destruct (i =? idx); [reflexivity|exact Rg].
-      * exact Rh.
-      * exact Rs.
-    + exact SS.
+    rewrite clears_cache. split.
+    + constructor; [|exact S]. intros slot e He. cbn [cache] in He. rewrite cache_entry_nil in He. discriminate.
+    + repeat split; auto. intro i. specialize (Rg i). unfold gget in *. cbn [globals lookup]. destruct (i =? idx); [reflexivity|exact Rg].
   - (* Alloc *)
     cbn [event_ok] in G. destruct (hget sp p) eqn:Hp; [discriminate|]. rewrite <- Rh in Hp.
-    assert (HK : forall q o', hget st q = Some o' ->
-                 hget (mkState (globals st) ((p, Some o) :: heap st) (cache st) (sites st)) q = Some o').
-    { intros q o' Ho. unfold hget in *. cbn [heap lookup].
-      destruct (q =? p) eqn:E; [apply N.eqb_eq in E; subst q; congruence|exact Ho]. }
-    split; [|split].
-    + destruct (transport_same_sites st (mkState (globals st) ((p, Some o) :: heap st) (cache st) (sites st)) I eq_refl) as (T1 & T2 & T3).
-      eapply cache_inv_transport; eauto.
-      * intros s q Hm e He. cbn [cache] in He. destruct (Hm e He) as (Hc & Hg & o' & Ho & Hk & Hcl).
-        split; [exact Hc|]. split; [exact Hg|]. exists o'. split; [apply HK; exact Ho|auto].
-      * intros s q Hn Hq. destruct (Hn Hq) as (Hg & o' & Ho & Hk). split; [exact Hg|]. exists o'. split; [apply HK; exact Ho|exact Hk].
-    + repeat split.
-      * exact Rg.
-      * intro q. specialize (Rh q). unfold hget in *. cbn [heap lookup]. destruct (q =? p); [reflexivity|exact Rh].
-      * exact Rs.
-    + exact SS.
+    split.
+    + constructor; [|exact S]. intros slot e He. cbn [cache] in He. destruct (E slot e He) as [(o' & Ho & Hk & Hc) B].
+      split; [|exact B]. exists o'. split; [|auto]. unfold hget in *. cbn [heap lookup].
+      destruct (e_code e =? p) eqn:Eq; [apply N.eqb_eq in Eq; rewrite Eq in Ho; congruence|exact Ho].
+    + repeat split; auto. intro q. specialize (Rh q). unfold hget in *. cbn [heap lookup]. destruct (q =? p); [reflexivity|exact Rh].
   - (* NewUnit *)
-    assert (NEW : forall (sts : list site) j s', nth_error (sts ++ map (site_of_decl base) ds) (N.to_nat j) = Some s' ->
-              nth_error sts (N.to_nat j) = Some s' \/
-              (nth_error sts (N.to_nat j) = None /\ exists d, s' = site_of_decl base d)).
-    { intros sts j s' Hj. destruct (nth_error sts (N.to_nat j)) as [s|] eqn:Es.
-      - left. rewrite nth_error_app1 in Hj by (apply nth_error_Some; congruence). congruence.
-      - right. split; [reflexivity|]. apply nth_error_None in Es. rewrite nth_error_app2 in Hj by exact Es.
-        apply nth_error_In in Hj. apply in_map_iff in Hj as (d & Hd & _). eauto. }
-    split; [|split].
-    + eapply cache_inv_transport; eauto.
-      * intros j s' Hj Us. destruct (NEW _ _ _ Hj) as [H|(_ & d & ->)].
-        -- eapply inv_slotted; eauto.
-        -- unfold site_of_decl in *. cbn in *. destruct (d_native d); cbn in *; [exfalso; apply (Us 0); reflexivity|reflexivity].
-      * intros j s' p Hj Lj Fj. destruct (NEW _ _ _ Hj) as [H|(_ & d & ->)].
-        -- exists s'. auto.
-        -- unfold site_of_decl in Fj. cbn in Fj. destruct (d_native d); discriminate.
-      * intros j s' p Hj Lj Fj. destruct (NEW _ _ _ Hj) as [H|(_ & d & ->)].
-        -- left. exists s'. auto.
-        -- right. unfold site_of_decl in *. cbn in *. destruct (d_native d); cbn in *; [|discriminate].
-           inversion Fj. auto.
+    cbn [event_ok] in G. rewrite forallb_forall in G. split.
+    + constructor; [exact E|]. intros j s Hj. unfold site_at in Hj. cbn [sites] in Hj.
+      destruct (nth_error (sites st) (N.to_nat j)) as [a|] eqn:Ea.
+      * rewrite nth_error_app1 in Hj by (apply nth_error_Some; congruence). rewrite Ea in Hj. inversion Hj; subst. exact (S j s Ea).
+      * apply nth_error_None in Ea. rewrite nth_error_app2 in Hj by exact Ea.
+        apply nth_error_In in Hj. apply in_map_iff in Hj as (d & Hd & Hin). subst s. cbn.
+        apply N.ltb_lt. exact (G d Hin).
     + repeat split; auto. cbn [sites]. apply Forall2_app; [exact Rs|].
       clear. induction ds; cbn; constructor; auto. apply site_rel_refl.
-    + intros j b Hj Sb. destruct (NEW _ _ _ Hj) as [H|(_ & d & ->)].
-      * eapply SS; eauto.
-      * unfold site_of_decl in *. cbn in *. destruct (d_native d); cbn in *; [discriminate|]. intros x; discriminate.
   - (* Retire *)
-    set (f := fun (i : N) (s : site) => if memb i sids then mkSite false (s_slotted s) (s_form s) (s_slot s) (s_idx s) else s).
-    assert (FS : forall (stt : state) j s', option_map (f j) (site_at stt j) = Some s' ->
-               exists s, site_at stt j = Some s /\ s_slotted s' = s_slotted s /\ s_form s' = s_form s /\ s_slot s' = s_slot s /\
-                         s_idx s' = s_idx s /\ (s_live s' = true -> s_live s = true)).
-    { intros stt j s' H. destruct (site_at stt j) as [s|]; [|discriminate]. cbn in H. inversion H as [E]. clear H.
-      exists s. unfold f. destruct (memb j sids); cbn; repeat split; auto. discriminate. }
-    split; [|split].
-    + eapply cache_inv_transport; eauto.
-      * intros j s' Hj Us. erewrite site_at_map_sites in Hj by reflexivity.
-        destruct (FS _ _ _ Hj) as (s & Hs & E1 & E2 & E3 & E4 & E5). rewrite E1.
-        eapply inv_slotted; eauto. intros x. rewrite <- E2. apply Us.
-      * intros j s' p Hj Lj Fj. erewrite site_at_map_sites in Hj by reflexivity.
-        destruct (FS _ _ _ Hj) as (s & Hs & E1 & E2 & E3 & E4 & E5). exists s. repeat split; auto; congruence.
-      * intros j s' p Hj Lj Fj. erewrite site_at_map_sites in Hj by reflexivity.
-        destruct (FS _ _ _ Hj) as (s & Hs & E1 & E2 & E3 & E4 & E5). left. exists s. repeat split; auto; congruence.
+    set (f := fun (i : N) (s : site) => if memb i sids then mkSite false (s_form s) (s_slot s) (s_idx s) else s).
+    split.
+    + constructor; [exact E|]. intros j s Hj. erewrite site_at_map_sites in Hj by reflexivity.
+      destruct (site_at st j) as [a|] eqn:Ea; [|discriminate]. cbn in Hj. inversion Hj. unfold f.
+      destruct (memb j sids); cbn; exact (S j a Ea).
     + repeat split; auto. cbn [sites]. apply forall2_of_nth. intro n.
       rewrite !nth_error_map_sites. pose proof (forall2_nth _ _ _ Rs n) as Hn.
       destruct (nth_error (sites st) n) as [a|]; destruct (nth_error (sites sp) n) as [b|]; cbn; auto.
-      unfold f. destruct (memb (0 + N.of_nat n) sids); [|exact Hn].
-      destruct Hn as (H1 & H2 & H3 & H4). repeat split; auto.
-    + intros j b Hj Sb. erewrite site_at_map_sites in Hj by reflexivity.
-      destruct (FS _ _ _ Hj) as (s & Hs & E1 & E2 & E3 & E4 & E5).
-      intros x. rewrite E2. eapply SS; eauto; congruence.
+      unfold f. destruct (memb (0 + N.of_nat n) sids); [|exact Hn]. destruct Hn. split; auto.
   - (* SaveReload *)
     set (f := fun (i : N) (s : site) => if memb i sids then reload_site s else s).
-    split; [|split].
-    + eapply cache_inv_transport; eauto.
-      * intros j s' Hj Us. erewrite site_at_map_sites in Hj by reflexivity.
-        destruct (site_at st j) as [s|] eqn:Es; [|discriminate]. cbn in Hj. inversion Hj as [E]. clear Hj.
-        unfold f, reload_site in *. destruct (memb j sids); [|subst s'; eapply inv_slotted; eauto].
-        destruct (s_form s) as [|p|p] eqn:Fs; subst s'; cbn in *.
-        -- eapply inv_slotted; eauto. intros x. congruence.
-        -- eapply inv_slotted; eauto. intros x. congruence.
-        -- eapply inv_slotted; eauto.
-      * intros j s' p Hj Lj Fj. erewrite site_at_map_sites in Hj by reflexivity.
-        destruct (site_at st j) as [s|] eqn:Es; [|discriminate]. cbn in Hj. inversion Hj as [E]. clear Hj.
-        unfold f, reload_site in *. destruct (memb j sids); [|subst s'; exists s; auto].
-        destruct (s_form s) as [|q|q] eqn:Fs; subst s'; cbn in *; try discriminate. congruence.
-      * intros j s' p Hj Lj Fj. erewrite site_at_map_sites in Hj by reflexivity.
-        destruct (site_at st j) as [s|] eqn:Es; [|discriminate]. cbn in Hj. inversion Hj as [E]. clear Hj.
-        unfold f, reload_site in *. destruct (memb j sids); [|subst s'; left; exists s; auto].
-        destruct (s_form s) as [|q|q] eqn:Fs; subst s'; cbn in *; try discriminate.
-        left. exists s. auto.
+    split.
+    + constructor; [exact E|]. intros j s Hj. erewrite site_at_map_sites in Hj by reflexivity.
+      destruct (site_at st j) as [a|] eqn:Ea; [|discriminate]. cbn in Hj. inversion Hj. unfold f, reload_site.
+      destruct (memb j sids); [|exact (S j a Ea)].
+      destruct (s_form a); cbn; try exact zero_slot_ok. exact (S j a Ea).
     + repeat split; auto. cbn [sites]. apply forall2_of_nth. intro n.
       rewrite !nth_error_map_sites. pose proof (forall2_nth _ _ _ Rs n) as Hn.
-      destruct (nth_error (sites st) n) as [a|] eqn:Ea; destruct (nth_error (sites sp) n) as [b|] eqn:Eb; cbn; auto.
-      unfold f. destruct (memb (0 + N.of_nat n) sids); [|exact Hn].
-      destruct Hn as (H1 & H2 & H3 & H4).
-      assert (Sa : uses_cache a -> s_slotted a = true).
-      { intro Ua. apply (inv_slotted st I (N.of_nat n) a); [unfold site_at; now rewrite Nat2N.id|exact Ua]. }
-      assert (Ub : s_slotted b = true -> uses_cache b).
-      { intro Sb. apply (SS (N.of_nat n) b); [unfold site_at; now rewrite Nat2N.id|exact Sb]. }
-      unfold reload_site.
-      destruct (s_form a) as [|q|q] eqn:Fa.
-      * assert (Sb : s_slotted b = true) by (rewrite <- H2; apply Sa; intros x; congruence).
-        destruct (s_form b) as [|q'|q'] eqn:Fb; cbn; repeat split; auto.
-        exfalso. apply (Ub Sb q'). exact Fb.
-      * assert (Sb : s_slotted b = true) by (rewrite <- H2; apply Sa; intros x; congruence).
-        destruct (s_form b) as [|q'|q'] eqn:Fb; cbn; repeat split; auto.
-        exfalso. apply (Ub Sb q'). exact Fb.
-      * destruct (s_form b) as [|q'|q'] eqn:Fb; cbn; repeat split; auto;
-          intros Ua; exfalso; apply (Ua q); exact Fa.
-    + intros j b Hj Sb. erewrite site_at_map_sites in Hj by reflexivity.
-      destruct (site_at sp j) as [s|] eqn:Es; [|discriminate]. cbn in Hj. inversion Hj as [E]. clear Hj.
-      unfold f, reload_site in *. destruct (memb j sids); [|subst b; eapply SS; eauto].
-      destruct (s_form s) as [|q|q] eqn:Fs; subst b; cbn in *; try (intros x; discriminate).
-      eapply SS; eauto.
+      destruct (nth_error (sites st) n) as [a|]; destruct (nth_error (sites sp) n) as [b|]; cbn; auto.
+      unfold f, reload_site. destruct (memb (0 + N.of_nat n) sids); [|exact Hn]. destruct Hn.
+      destruct (s_form a), (s_form b); split; auto.
   - (* Collect *)
     cbn [event_ok] in G. rewrite forallb_forall in G.
-    assert (NB : forall q i, gget st i = GPtr q -> memb q freed = false).
-    { intros q i Hg. destruct (memb q freed) eqn:M; [|reflexivity]. exfalso.
-      unfold memb in M. apply existsb_exists in M as (x & Hx & E). apply N.eqb_eq in E. subst x.
-      specialize (G q Hx). apply negb_true_iff in G.
-      apply (not_bound_somewhere sp q G i). rewrite <- Rg. exact Hg. }
     assert (HK : forall (stt : state) q, hget (mkState (globals stt) (map (fun p => (p, None)) freed ++ heap stt) (cache stt) (sites stt)) q
                           = if memb q freed then None else hget stt q).
     { intros stt q. unfold hget. cbn [heap]. rewrite lookup_freed. destruct (memb q freed); reflexivity. }
-    split; [|split].
-    + destruct (transport_same_sites st (mkState (globals st) (map (fun p => (p, None)) freed ++ heap st) (cache st) (sites st)) I eq_refl) as (T1 & T2 & T3).
-      eapply cache_inv_transport; eauto.
-      * intros s q Hm e He. cbn [cache] in He. destruct (Hm e He) as (Hc & Hg & o' & Ho & Hk & Hcl).
-        split; [exact Hc|]. split; [exact Hg|]. exists o'. split; [|auto].
-        rewrite HK. rewrite (NB q _ Hg). exact Ho.
-      * intros s q Hn Hq. destruct (Hn Hq) as (Hg & o' & Ho & Hk). split; [exact Hg|]. exists o'. split; [|exact Hk].
-        rewrite HK. rewrite (NB q _ Hg). exact Ho.
-    + repeat split.
-      * exact Rg.
-      * intro q. rewrite !HK. rewrite Rh. reflexivity.
-      * exact Rs.
-    + exact SS.
+    split.
+    + constructor; [|exact S]. intros slot e He. cbn [cache] in He. destruct (E slot e He) as [(o' & Ho & Hk & Hc) B].
+      split; [|exact B]. exists o'. split; [|auto]. rewrite HK.
+      destruct (memb (e_code e) freed) eqn:M; [|exact Ho]. exfalso.
+      unfold memb in M. apply existsb_exists in M as (x & Hx & Ex). apply N.eqb_eq in Ex. subst x.
+      specialize (G _ Hx). apply negb_true_iff in G.
+      destruct (bound_somewhere_elim st _ B) as [i Hi].
+      apply (not_bound_somewhere sp _ G i). rewrite <- Rg. exact Hi.
+    + repeat split; auto. intro q. rewrite !HK. now rewrite Rh.
 Qed.
 
 (* ------------------------------------------------------------------ histories *)
-Definition agree (a b : outcome) : Prop := same_callee a b = true.
-
 Lemma run_cons stp st e r : run stp st (e :: r) = snd (stp st e) :: run stp (fst (stp st e)) r.
 Proof. cbn [run]. destruct (stp st e); reflexivity. Qed.
 
@@ -640,19 +504,19 @@ Lemma step_noncall_outcome st ev : (forall sid, ev <> Call sid) -> snd (step st 
 Proof. intro NC. destruct ev; try reflexivity. exfalso. eapply NC. reflexivity. Qed.
 
 Theorem run_agrees : forall h st sp,
-  cache_inv st -> view_rel st sp -> spec_sites_ok sp -> hist_ok sp h = true ->
+  cache_inv st -> view_rel st sp -> env_ok sp h = true ->
   Forall2 agree (run step st h) (run spec_step sp h).
 Proof.
-  induction h as [|e r IH]; intros st sp I R SS H; [constructor|].
-  cbn [hist_ok] in H. apply andb_true_iff in H as [H Hr]. apply andb_true_iff in H as [U G].
+  induction h as [|e r IH]; intros st sp I R H; [constructor|].
+  cbn [env_ok] in H. apply andb_true_iff in H as [G Hr].
   rewrite !run_cons.
   destruct e as [sid|idx v|p o|ds base|sids|sids|freed].
   1: { cbn [step spec_step fst snd] in *. constructor.
        - apply call_correct; auto.
-       - destruct (step_call_preserves st sp sid I R U) as [I' R']. apply IH; auto. }
+       - destruct (step_call_preserves st sid I) as [I' P']. apply IH; auto. eapply patched_view; eauto. }
   all: match goal with |- Forall2 _ (snd (step ?s ?ev) :: _) _ =>
          assert (NC : forall sid, ev <> Call sid) by (intros sid; discriminate);
-         destruct (step_other_preserves st sp ev NC I R SS G) as (I' & R' & SS');
+         destruct (step_other_preserves st sp ev NC I R G) as (I' & R');
          constructor; [ rewrite step_noncall_outcome by exact NC; reflexivity
                       | apply IH; auto ]
        end.
@@ -660,53 +524,32 @@ Qed.
 
 Lemma init_inv : cache_inv init.
 Proof.
-  constructor; intros sid s; unfold site_at, init; cbn; destruct (N.to_nat sid); discriminate.
+  constructor.
+  - intros slot e H. rewrite cache_entry_nil in H. discriminate.
+  - intros sid s. unfold site_at, init. cbn. destruct (N.to_nat sid); discriminate.
 Qed.
 
-Lemma init_rel : view_rel init init.
-Proof. repeat split; constructor. Qed.
-
-Lemma init_spec_ok : spec_sites_ok init.
-Proof. intros sid b; unfold site_at, init; cbn; destruct (N.to_nat sid); discriminate. Qed.
-
-Theorem run_agrees_from_init : forall h, hist_ok init h = true ->
+Theorem run_agrees_from_init : forall h, env_ok init h = true ->
   Forall2 agree (run step init h) (run spec_step init h).
-Proof. intros h H. apply run_agrees; auto using init_inv, init_rel, init_spec_ok. Qed.
-
-(* per call: the k-th event of the history, when it is a call, enters the specified callee *)
-Lemma forall2_nth_agree : forall l l', Forall2 agree l l' ->
-  forall k a b, nth_error l k = Some a -> nth_error l' k = Some b -> agree a b.
-Proof.
-  intros l l' H k a b Ha Hb. pose proof (forall2_nth _ _ _ H k) as Hk. rewrite Ha, Hb in Hk. exact Hk.
-Qed.
+Proof. intros h H. apply run_agrees; auto using init_inv, view_rel_refl. Qed.
 
 (* ------------------------------------------------------------------ invalidation *)
+(* right after set_global*, in ANY state, a call through any site enters the specified callee *)
 Lemma invalidate_on_set : forall st idx v sid s,
   let st' := fst (step st (SetGlobal idx v)) in
-  site_at st' sid = Some s -> uses_cache s -> s_slot s < MAX_CALL_SITE_SLOTS ->
+  site_at st' sid = Some s -> s_slot s < MAX_CALL_SITE_SLOTS ->
   agree (snd (call st' sid)) (spec_call st' sid).
 Proof.
-  intros st idx v sid s st' Hs Us Hb. unfold agree, call, spec_call. fold (site_at st' sid). rewrite Hs.
+  intros st idx v sid s st' Hs Hb. rewrite spec_call_res. unfold call. fold (site_at st' sid). rewrite Hs.
   destruct (s_live s); cbn [negb]; [|reflexivity].
-  assert (Hb' : (MAX_CALL_SITE_SLOTS <=? s_slot s) = false) by (apply N.leb_gt; exact Hb).
-  destruct (s_form s) as [|p|p] eqn:Fs.
-  - unfold op_call_global. destruct (resolve st' (s_idx s)) as [q o| | |]; cbn; auto.
-    destruct (o_kind o); rewrite ?Hb'; cbn; rewrite ?N.eqb_refl; reflexivity.
-  - unfold op_call_global_mono.
-    assert (C : cache_entry (cache st') (s_slot s) = None).
-    { unfold st'. cbn [step fst cache]. rewrite clears_cache. apply cache_entry_nil. }
-    rewrite C.
-    assert (M : same_callee (snd (mono_miss st' sid s))
-                  match resolve st' (s_idx s) with
-                  | ROk q o => match o_kind o with KNat => ONative q | _ => ORan q q end
-                  | _ => OErr ENotCallable end = true).
-    { unfold mono_miss. destruct (resolve st' (s_idx s)) as [q o| | |]; cbn; auto.
-      destruct (o_kind o); rewrite ?Hb'; cbn; rewrite ?N.eqb_refl; reflexivity. }
-    destruct (negb (p =? 0) && (negb MONO_FAST_PATH_VALIDATES || gval_is (gget st' (s_idx s)) p)); exact M.
-  - exfalso. apply (Us p). exact Fs.
+  destruct (s_form s) as [|p|p].
+  - now apply plain_correct.
+  - apply mono_correct; [|exact Hb]. intros slot e He. unfold st' in He. cbn [step fst cache] in He.
+    rewrite clears_cache, cache_entry_nil in He. discriminate.
+  - apply native_correct.
 Qed.
 
-(* ------------------------------------------------------------------ refutation plumbing *)
+(* ------------------------------------------------------------------ former counterexamples *)
 Fixpoint all_agree (a b : list outcome) : bool :=
   match a, b with
   | [], [] => true
@@ -714,16 +557,11 @@ Fixpoint all_agree (a b : list outcome) : bool :=
   | _, _ => false
   end.
 
-Lemma forall2_all_agree a b : Forall2 agree a b -> all_agree a b = true.
-Proof. induction 1 as [|x y a b Hxy _ IH]; cbn; [reflexivity|]. unfold agree in Hxy. now rewrite Hxy, IH. Qed.
-
-Lemma not_agree a b : all_agree a b = false -> ~ Forall2 agree a b.
-Proof. intros H F. apply forall2_all_agree in F. congruence. Qed.
-
 Lemma repl_base_zero : forall st, repl_slot_base st = 0.
 Proof. intro st. reflexivity. Qed.
 
-(* ---- witnesses (names: ha=0 hb=1 a=2 b=3; heap indices 10..13; tags 20..23) ---- *)
+(* ---- the histories that refuted the property before the repairs (names: ha=0 hb=1 a=2 b=3;
+        heap indices 10..13; tags 20..23) ---- *)
 Definition defs_ha_hb : list event :=
   [Alloc 10 (mkObj KFn 20 []); SetGlobal 0 (GPtr 10); Alloc 11 (mkObj KFn 21 []); SetGlobal 1 (GPtr 11)].
 
@@ -737,7 +575,6 @@ Definition repl_session : list (list event) :=
     [NewUnit [mkDecl false 0 3] 0; Call 3; Retire [3]];
     [NewUnit [mkDecl false 0 2] 0; Call 4; Retire [4]] ].
 
-(* the same session as a flat history, with the calls made by the bodies written out *)
 Definition repl_history : list event :=
   (NewUnit [] 0 :: defs_ha_hb) ++
   [NewUnit [mkDecl false 0 0] 0; Alloc 12 (mkObj KFn 22 [0]); SetGlobal 2 (GPtr 12);
@@ -746,8 +583,6 @@ Definition repl_history : list event :=
    NewUnit [mkDecl false 0 3] 0; Call 3; Call 1; Retire [3];
    NewUnit [mkDecl false 0 2] 0; Call 4; Call 0].
 
-(* one program: fn ha, hb, a(){ha()}, b(){hb()}; a(); b(); a()  -- sites: 0 = a's body (slot 0),
-   1 = b's body (slot 1), 2,3,4 = top level (slots 2,3,4) *)
 Definition program_unit : list event :=
   defs_ha_hb ++
   [NewUnit [mkDecl false 0 0; mkDecl false 1 1; mkDecl false 2 2; mkDecl false 3 3; mkDecl false 4 2] 0;
@@ -755,61 +590,38 @@ Definition program_unit : list event :=
 Definition program_calls : list event := [Call 2; Call 0; Call 3; Call 1; Call 4; Call 0].
 Definition program_session (reload : bool) : list (list event) :=
   [program_unit ++ (if reload then [SaveReload [0; 1; 2; 3; 4]] else []) ++ [Call 2; Call 3; Call 4]].
+Definition reload_history : list event := program_unit ++ SaveReload [0; 1; 2; 3; 4] :: program_calls.
 
-(* `let mut t = abs; fn go(){ t() }; go(); t = floor; go()` -- names: abs=0 floor=1 t=2 go=3;
-   natives at heap 58, 75; go at 12; sites: 0 = go's body (t, emitted 77, slot 0), 1,2 = top level *)
+(* `let mut t = abs; fn go(){ t() }; go(); t = floor; go(); t = go2 (a user function); go()` *)
 Definition native_history : list event :=
   [Alloc 58 (mkObj KNat 1 []); SetGlobal 0 (GPtr 58); Alloc 75 (mkObj KNat 2 []); SetGlobal 1 (GPtr 75);
-   NewUnit [mkDecl false 0 2; mkDecl false 1 3; mkDecl false 2 3] 0;
+   NewUnit [mkDecl false 0 2; mkDecl false 1 3; mkDecl false 2 3; mkDecl false 3 3; mkDecl true 0 0] 0;
    SetGlobal 2 (GPtr 58); Alloc 12 (mkObj KFn 22 [0]); SetGlobal 3 (GPtr 12);
-   Call 1; Call 0; SetGlobal 2 (GPtr 75); Call 2; Call 0].
+   Call 1; Call 0; SetGlobal 2 (GPtr 75); Call 2; Call 0;
+   Alloc 13 (mkObj KFn 23 []); SetGlobal 2 (GPtr 13); Call 3; Call 0;
+   SetGlobal 0 (GPtr 13); Call 4].
 
-Lemma repl_refuted : ~ Forall2 agree (run step init repl_history) (run spec_step init repl_history).
-Proof. apply not_agree. vm_compute. reflexivity. Qed.
+Lemma former_counterexamples_agree :
+  env_ok init repl_history = true /\ env_ok init reload_history = true /\ env_ok init native_history = true /\
+  all_agree (run step init repl_history) (run spec_step init repl_history) = true /\
+  all_agree (run step init reload_history) (run spec_step init reload_history) = true /\
+  all_agree (run step init native_history) (run spec_step init native_history) = true /\
+  nth_error (run step init repl_history) 21 = Some (ORan 10 10) /\
+  nth_error (run step init native_history) 16 = Some (ORan 13 13) /\
+  nth_error (run step init native_history) 18 = Some (ORan 13 13).
+Proof. vm_compute. repeat split; reflexivity. Qed.
 
-Lemma repl_last_call : nth_error (run step init repl_history) 21 = Some (ORan 12 10)
-  /\ nth_error (run spec_step init repl_history) 21 = Some (ORan 10 10).
-Proof. vm_compute. split; reflexivity. Qed.
+(* what the toolchain now prints for the reproduced sessions (corpus/C05): the specification's tags *)
+Lemma witness_predictions :
+  session_obs repl_session =
+    [[0; 0]; [0; 0]; [0; 0]; [0; 2; 22; 20]; [0; 2; 23; 21]; [0; 2; 22; 20]] /\
+  session_obs (program_session false) = [[0; 6; 22; 20; 23; 21; 22; 20]] /\
+  session_obs (program_session true) = [[0; 6; 22; 20; 23; 21; 22; 20]].
+Proof. vm_compute. repeat split; reflexivity. Qed.
 
-Lemma reload_refuted :
-  hist_ok init (program_unit ++ program_calls) = true /\
-  ~ Forall2 agree (run step init (program_unit ++ SaveReload [0; 1; 2; 3; 4] :: program_calls))
-                  (run spec_step init (program_unit ++ SaveReload [0; 1; 2; 3; 4] :: program_calls)).
-Proof. split; [vm_compute; reflexivity|]. apply not_agree. vm_compute. reflexivity. Qed.
-
-Lemma native_refuted :
-  unique_slots (final spec_step init native_history) = true /\
-  ~ Forall2 agree (run step init native_history) (run spec_step init native_history).
-Proof. split; [vm_compute; reflexivity|]. apply not_agree. vm_compute. reflexivity. Qed.
-
-(* ---- the statements Props/C05.v exports ---- *)
-Lemma repl_slot_collision_refuted_lemma :
-  exists h : list event,
-    (forall st, repl_slot_base st = 0) /\
-    ~ Forall2 agree (run step init h) (run spec_step init h) /\
-    nth_error (run step init h) 21 = Some (ORan 12 10) /\
-    nth_error (run spec_step init h) 21 = Some (ORan 10 10).
-Proof.
-  exists repl_history. split; [exact repl_base_zero|]. split; [exact repl_refuted|exact repl_last_call].
-Qed.
-
-Lemma reload_zeroed_slots_refuted_lemma :
-  exists (unit calls : list event) (sids : list N),
-    hist_ok init (unit ++ calls) = true /\
-    ~ Forall2 agree (run step init (unit ++ SaveReload sids :: calls))
-                    (run spec_step init (unit ++ SaveReload sids :: calls)).
-Proof. exists program_unit, program_calls, [0; 1; 2; 3; 4]. exact reload_refuted. Qed.
-
-Lemma native_rebind_stale_refuted_lemma :
-  exists h : list event,
-    unique_slots (final spec_step init h) = true /\
-    ~ Forall2 agree (run step init h) (run spec_step init h).
-Proof. exists native_history. exact native_refuted. Qed.
-
-(* a history inside the guard: two sites, function -> closure -> native rebinding, a collection
-   that frees the old function, a second unit loaded at a fresh slot base, a retired site whose
-   slot is reused *)
-Definition guarded_history : list event :=
+(* a history with function -> closure -> native rebinding, a collection that frees the old function,
+   units loaded at slot base 0 again and again, a retired site *)
+Definition mixed_history : list event :=
   [Alloc 10 (mkObj KFn 20 []); SetGlobal 0 (GPtr 10);
    NewUnit [mkDecl false 0 0; mkDecl false 1 0] 0;
    Call 0; Call 0; Call 1;
@@ -817,26 +629,18 @@ Definition guarded_history : list event :=
    Call 0; Call 1; Call 0;
    Collect [10];
    Call 0;
-   NewUnit [mkDecl false 0 0] 2; Call 2; Retire [2];
-   NewUnit [mkDecl false 0 0] 2; Call 3;
+   NewUnit [mkDecl false 0 0] 0; Call 2; Retire [2];
+   NewUnit [mkDecl false 0 0] 0; Call 3;
    Alloc 58 (mkObj KNat 1 []); SetGlobal 0 (GPtr 58);
-   Call 0; Call 3].
+   Call 0; Call 3;
+   Alloc 10 (mkObj KFn 24 []); SetGlobal 0 (GPtr 10);
+   Call 0; Call 3; Call 1].
 
-Lemma guarded_history_facts :
-  hist_ok init guarded_history = true /\
-  run step init guarded_history =
+Lemma mixed_history_facts :
+  env_ok init mixed_history = true /\
+  run step init mixed_history =
     [ONone; ONone; ONone; ORan 10 10; ORan 10 10; ORan 10 10; ONone; ONone;
      ORan 11 11; ORan 11 11; ORan 11 11; ONone; ORan 11 11; ONone; ORan 11 11; ONone;
-     ONone; ORan 11 11; ONone; ONone; ONative 58; ONative 58].
+     ONone; ORan 11 11; ONone; ONone; ONative 58; ONative 58; ONone; ONone;
+     ORan 10 10; ORan 10 10; ORan 10 10].
 Proof. vm_compute. split; reflexivity. Qed.
-
-(* what the model predicts the real toolchain prints for the two reproduced sessions
-   (corpus/C05/repl_slot_collision.txt, corpus/C05/reload_zeroed_slots.txt): status 2 = stack
-   overflow after 1023 (resp. 1027) printed tags *)
-Lemma witness_predictions :
-  session_obs repl_session =
-    [[0; 0]; [0; 0]; [0; 0]; [0; 2; 22; 20]; [0; 2; 23; 21];
-     2 :: 1023 :: repeat 22 24] /\
-  session_obs (program_session false) = [[0; 6; 22; 20; 23; 21; 22; 20]] /\
-  session_obs (program_session true) = [2 :: 1027 :: [22; 20; 23; 21] ++ repeat 22 20].
-Proof. vm_compute. repeat split; reflexivity. Qed.
